@@ -112,13 +112,26 @@ func judgeRoundTrip(c *hx.Ctx, g XZCfg, run XZRun, replay any) {
 		}
 		return m
 	}
-	// the smallest reader window the library accepts: the declared dictionary size then decides
-	r, err := xz.ReaderConfig{DictCap: 4096}.NewReader(bytes.NewReader(run.Sink))
+	// Reader options rotate with the case: mostly the smallest window the library accepts (the
+	// declared dictionary size then decides), sometimes the default window, sometimes
+	// SingleStream (the writer emits exactly one stream); read sizes rotate too.
+	rc := xz.ReaderConfig{DictCap: 4096}
+	bufSize := 32768
+	switch len(run.Sink) % 5 {
+	case 1:
+		rc = xz.ReaderConfig{}
+	case 2:
+		rc = xz.ReaderConfig{DictCap: 4096, SingleStream: true}
+		bufSize = 1000
+	case 3:
+		bufSize = 70000
+	}
+	r, err := rc.NewReader(bytes.NewReader(run.Sink))
 	if err != nil {
 		c.Violation(sig("reader-open"), fmt.Sprintf("xz.NewReader rejects the writer's output: %v", err), replay)
 		return
 	}
-	out, rerr, p := readAllSafe(r, 32768, 0)
+	out, rerr, p := readAllSafe(r, bufSize, 0)
 	if p != nil || rerr != nil || !bytes.Equal(out, run.Written) {
 		c.Violation(sig("roundtrip", "rerr", libErrTag(rerr)), fmt.Sprintf("round trip: got %d bytes (want %d) err=%v panic=%v", len(out), len(run.Written), rerr, p), replay)
 	}
